@@ -1,0 +1,298 @@
+//go:build verif
+
+package gossip
+
+import (
+	"net"
+	"sync"
+	"time"
+
+	"go.uber.org/atomic"
+
+	"github.com/andydunstall/piko/pkg/log"
+)
+
+// This file only exists under the 'verif' build tag. It exposes the gossip
+// internals to an external verification harness without starting any
+// background goroutines, so the harness decides the schedule.
+
+// VerifDetector is a failure detector whose suspicion levels are set by the
+// harness. Reports and removals are recorded.
+type VerifDetector struct {
+	mu      sync.Mutex
+	level   map[string]float64
+	reports []string
+	removed []string
+}
+
+func NewVerifDetector() *VerifDetector {
+	return &VerifDetector{level: make(map[string]float64)}
+}
+
+func (d *VerifDetector) Report(nodeID string) {
+	d.mu.Lock()
+	defer d.mu.Unlock()
+	d.reports = append(d.reports, nodeID)
+}
+
+func (d *VerifDetector) SuspicionLevel(nodeID string) float64 {
+	d.mu.Lock()
+	defer d.mu.Unlock()
+	return d.level[nodeID]
+}
+
+func (d *VerifDetector) Remove(nodeID string) {
+	d.mu.Lock()
+	defer d.mu.Unlock()
+	delete(d.level, nodeID)
+	d.removed = append(d.removed, nodeID)
+}
+
+func (d *VerifDetector) SetLevel(nodeID string, level float64) {
+	d.mu.Lock()
+	defer d.mu.Unlock()
+	d.level[nodeID] = level
+}
+
+// Drain returns and clears the recorded reports and removals.
+func (d *VerifDetector) Drain() (reports []string, removed []string) {
+	d.mu.Lock()
+	defer d.mu.Unlock()
+	reports, removed = d.reports, d.removed
+	d.reports, d.removed = nil, nil
+	return reports, removed
+}
+
+var _ failureDetector = &VerifDetector{}
+
+// VerifAccrual wraps the real accrual failure detector with explicit
+// timestamps.
+type VerifAccrual struct {
+	d *accrualFailureDetector
+}
+
+func NewVerifAccrual(bootstrapInterval time.Duration, sampleSize int) *VerifAccrual {
+	return &VerifAccrual{d: newAccrualFailureDetector(bootstrapInterval, sampleSize)}
+}
+
+func (a *VerifAccrual) ReportAt(nodeID string, t time.Time) {
+	a.d.ReportWithTimestamp(nodeID, t)
+}
+
+func (a *VerifAccrual) LevelAt(nodeID string, t time.Time) float64 {
+	return a.d.SuspicionLevelAt(nodeID, t)
+}
+
+func (a *VerifAccrual) Remove(nodeID string) { a.d.Remove(nodeID) }
+
+func (a *VerifAccrual) Detector() any { return a.d }
+
+// VerifNode is a gossip node (cluster state, packet listener, stream
+// listener and the sending half of Gossip) without the periodic tasks.
+type VerifNode struct {
+	state *clusterState
+	pl    *packetListener
+	sl    *streamListener
+	g     *Gossip
+}
+
+// NewVerifNode creates a node. detector must be a *VerifDetector or a
+// *VerifAccrual.
+func NewVerifNode(
+	id string,
+	addr string,
+	maxPacketSize int,
+	conn net.PacketConn,
+	detector any,
+	watcher Watcher,
+) *VerifNode {
+	var fd failureDetector
+	switch d := detector.(type) {
+	case *VerifDetector:
+		fd = d
+	case *VerifAccrual:
+		fd = d.d
+	default:
+		panic("verif: unsupported detector")
+	}
+	if watcher == nil {
+		watcher = newNopWatcher()
+	}
+	metrics := newMetrics()
+	logger := log.NewNopLogger()
+	state := newClusterState(id, addr, fd, metrics, watcher)
+	conf := &Config{
+		BindAddr:      addr,
+		AdvertiseAddr: addr,
+		Interval:      time.Second,
+		MaxPacketSize: maxPacketSize,
+	}
+	n := &VerifNode{
+		state: state,
+		pl:    newPacketListener(conn, state, fd, maxPacketSize, metrics, logger),
+		g: &Gossip{
+			state:      state,
+			config:     conf,
+			dialer:     &net.Dialer{Timeout: streamTimeout},
+			packetConn: conn,
+			metrics:    metrics,
+			logger:     logger,
+			closed:     atomic.NewBool(false),
+			shutdownCh: make(chan struct{}),
+		},
+	}
+	n.g.packetListener = n.pl
+	return n
+}
+
+// ServeStream accepts join/leave streams on ln until it is closed.
+func (n *VerifNode) ServeStream(ln net.Listener, timeout time.Duration) {
+	n.sl = newStreamListener(ln, n.state, timeout, n.g.metrics, n.g.logger)
+	n.g.streamListener = n.sl
+	go n.sl.Serve()
+}
+
+func (n *VerifNode) SetMaxPacketSize(size int) {
+	n.pl.maxPacketSize = size
+	n.g.config.MaxPacketSize = size
+}
+
+func (n *VerifNode) UpsertLocal(key, value string)         { n.state.UpsertLocal(key, value) }
+func (n *VerifNode) DeleteLocal(key string)                { n.state.DeleteLocal(key) }
+func (n *VerifNode) LeaveLocal()                           { n.state.LeaveLocal() }
+func (n *VerifNode) CompactLocal(threshold int)            { n.state.CompactLocal(threshold) }
+func (n *VerifNode) UpdateLiveness(threshold float64)      { n.state.UpdateLiveness(threshold) }
+func (n *VerifNode) RemoveExpiredAt(t time.Time)           { n.state.RemoveExpiredAt(t) }
+func (n *VerifNode) Node(id string) (*NodeState, bool)     { return n.state.Node(id) }
+func (n *VerifNode) LocalNode() *NodeState                 { return n.state.LocalNode() }
+func (n *VerifNode) Nodes() []NodeMetadata                 { return n.state.Nodes() }
+func (n *VerifNode) LiveNodes() []NodeMetadata             { return n.state.LiveNodes() }
+func (n *VerifNode) UnreachableNodes() []NodeMetadata      { return n.state.UnreachableNodes() }
+func (n *VerifNode) HandlePacket(b []byte) error           { return n.pl.handlePacket(b) }
+func (n *VerifNode) GossipRound() error                    { return n.g.gossipRound() }
+func (n *VerifNode) JoinAddr(addr string) (string, error)  { return n.g.join(addr) }
+func (n *VerifNode) LeaveAddr(addr string) error           { return n.g.leave(addr) }
+func (n *VerifNode) Leave() error                          { return n.g.Leave() }
+func (n *VerifNode) Join(addrs []string) ([]string, error) { return n.g.Join(addrs) }
+
+// GossipTo sends a digest request to the node at addr.
+func (n *VerifNode) GossipTo(addr string) error {
+	return n.g.gossip(NodeMetadata{Addr: addr})
+}
+
+// HandleStream runs the stream handler on an established connection.
+func (n *VerifNode) HandleStream(conn net.Conn, timeout time.Duration) error {
+	sl := newStreamListener(nil, n.state, timeout, n.g.metrics, n.g.logger)
+	return sl.handleConn(conn)
+}
+
+// VerifDigestEntry mirrors digestEntry.
+type VerifDigestEntry struct {
+	ID      string
+	Addr    string
+	Version uint64
+	Left    bool
+}
+
+// VerifDeltaEntry mirrors deltaEntry.
+type VerifDeltaEntry struct {
+	ID      string
+	Addr    string
+	Entries []Entry
+}
+
+// VerifPacket is a decoded datagram.
+type VerifPacket struct {
+	Type    string // "digest" or "delta"
+	NodeID  string
+	Addr    string
+	Request bool
+	Digest  []VerifDigestEntry
+	Delta   []VerifDeltaEntry
+}
+
+func toVerifDigest(d digest) []VerifDigestEntry {
+	out := make([]VerifDigestEntry, 0, len(d))
+	for _, e := range d {
+		out = append(out, VerifDigestEntry{ID: e.ID, Addr: e.Addr, Version: e.Version, Left: e.Left})
+	}
+	return out
+}
+
+func fromVerifDigest(d []VerifDigestEntry) digest {
+	var out digest
+	for _, e := range d {
+		out = append(out, digestEntry{ID: e.ID, Addr: e.Addr, Version: e.Version, Left: e.Left})
+	}
+	return out
+}
+
+func toVerifDelta(d delta) []VerifDeltaEntry {
+	out := make([]VerifDeltaEntry, 0, len(d))
+	for _, e := range d {
+		out = append(out, VerifDeltaEntry{ID: e.ID, Addr: e.Addr, Entries: e.Entries})
+	}
+	return out
+}
+
+func fromVerifDelta(d []VerifDeltaEntry) delta {
+	var out delta
+	for _, e := range d {
+		out = append(out, deltaEntry{ID: e.ID, Addr: e.Addr, Entries: e.Entries})
+	}
+	return out
+}
+
+// VerifDecodePacket decodes a datagram with the real decoder.
+func VerifDecodePacket(b []byte) (*VerifPacket, error) {
+	if len(b) < 2 {
+		return nil, net.ErrClosed
+	}
+	switch messageType(b[0]) {
+	case messageTypeDigest:
+		h, d, err := decodeDigest(b)
+		if err != nil {
+			return nil, err
+		}
+		return &VerifPacket{
+			Type: "digest", NodeID: h.NodeID, Addr: h.Addr, Request: h.Request,
+			Digest: toVerifDigest(d),
+		}, nil
+	default:
+		h, d, err := decodeDelta(b)
+		if err != nil {
+			return nil, err
+		}
+		return &VerifPacket{
+			Type: "delta", NodeID: h.NodeID, Addr: h.Addr,
+			Delta: toVerifDelta(d),
+		}, nil
+	}
+}
+
+func VerifEncodeDelta(nodeID, addr string, d []VerifDeltaEntry, maxPacketSize int) ([]byte, error) {
+	return encodeDelta(deltaHeader{NodeID: nodeID, Addr: addr}, fromVerifDelta(d), maxPacketSize)
+}
+
+func VerifEncodeDigest(nodeID, addr string, request bool, d []VerifDigestEntry, maxPacketSize int) ([]byte, error) {
+	return encodeDigest(digestHeader{NodeID: nodeID, Addr: addr, Request: request}, fromVerifDigest(d), maxPacketSize)
+}
+
+// Digest returns the node's current digest.
+func (n *VerifNode) Digest() []VerifDigestEntry { return toVerifDigest(n.state.Digest()) }
+
+// DeltaFor returns the delta the node would answer the digest with.
+func (n *VerifNode) DeltaFor(d []VerifDigestEntry, full bool) []VerifDeltaEntry {
+	return toVerifDelta(n.state.Delta(fromVerifDigest(d), full))
+}
+
+func (n *VerifNode) ApplyDigest(d []VerifDigestEntry) { n.state.ApplyDigest(fromVerifDigest(d)) }
+func (n *VerifNode) ApplyDelta(d []VerifDeltaEntry)   { n.state.ApplyDelta(fromVerifDelta(d)) }
+
+const (
+	VerifLeftKey            = leftKey
+	VerifCompactKey         = compactKey
+	VerifNodeExpiry         = nodeExpiry
+	VerifSuspicionThreshold = suspicionThreshold
+	VerifCompactThreshold   = compactThreshold
+)
